@@ -32,6 +32,7 @@ type Env struct {
 	useCells  bool // resolve parameters/locals through their current cells (loop invariants)
 	ghostOnly bool
 	inOld     bool
+	noWrap    bool // inside mathint(...): + - * on integers are mathematical (no wrap-around)
 	cur       *State // inside old(): the state local variables are read from
 }
 
@@ -407,6 +408,18 @@ func (e *Env) binary(ex *ast.BinaryExpr, hint types.Type) Val {
 			return Val{T: boolT, S: s}
 		}
 		return Val{T: boolT, S: c.compare(ex.Op, l.T, l.S, r.S)}
+	}
+	if e.noWrap && !c.mode.BV {
+		if _, _, isInt := intInfo(l.T); isInt {
+			switch ex.Op {
+			case token.ADD:
+				return Val{T: l.T, S: sx("+", l.S, r.S)}
+			case token.SUB:
+				return Val{T: l.T, S: sx("-", l.S, r.S)}
+			case token.MUL:
+				return Val{T: l.T, S: sx("*", l.S, r.S)}
+			}
+		}
 	}
 	res, _ := c.binop(ex.Op, l.T, l.S, r.S, r.T)
 	return Val{T: l.T, S: res}
@@ -823,6 +836,19 @@ func (e *Env) callExpr(ex *ast.CallExpr, hint types.Type) Val {
 			return Val{T: boolT, S: fmt.Sprintf("(%s (%s) %s)", q, strings.Join(binders, " "), inner)}
 		case "held": // ghost: the package's mutex is held
 			return Val{T: boolT, S: c.region(e.st, "$held")}
+		case "mathint": // mathint(E): E with + - * on integers taken over the mathematical integers
+			n := *e
+			n.noWrap = true
+			return n.eval(ex.Args[0], hint)
+		case "obs": // ghost: the observed writer (the one whose accepted bytes make up the output tape)
+			t := hint
+			if t == nil {
+				t = types.NewInterfaceType(nil, nil)
+			}
+			return Val{T: t, S: c.obsConst()}
+		case "leafwriter": // the dynamic type is a standard-library writer that forwards to no other writer
+			a := e.eval(ex.Args[0], nil)
+			return Val{T: boolT, S: c.leafWriter(a.S)}
 		case "opos": // ghost: number of bytes accepted by the underlying writers so far
 			return Val{T: intT, S: c.fromIdx(intT, c.region(e.st, "$opos"))}
 		case "otape": // ghost: the k-th byte of the output tape
